@@ -34,6 +34,36 @@ pub struct PipeEnd {
     /// every chunk (not only the first after a pause) takes the transit time: a frame larger than the read limit
     /// arrives in pieces with a stall in the middle
     trickle: bool,
+    /// when set (and raised), every write on this end fails with BrokenPipe: the send direction of a transport
+    /// whose two directions fail independently is lost while the receive direction stays open
+    cut_writes: Option<Arc<std::sync::atomic::AtomicBool>>,
+}
+
+struct CuttableWrite<W> {
+    inner: W,
+    cut: Option<Arc<std::sync::atomic::AtomicBool>>,
+}
+impl<W> CuttableWrite<W> {
+    fn is_cut(&self) -> bool {
+        self.cut.as_ref().is_some_and(|c| c.load(std::sync::atomic::Ordering::SeqCst))
+    }
+}
+impl<W: AsyncWrite + Unpin> AsyncWrite for CuttableWrite<W> {
+    fn poll_write(mut self: Pin<&mut Self>, cx: &mut Context<'_>, buf: &[u8]) -> Poll<std::io::Result<usize>> {
+        if self.is_cut() {
+            return Poll::Ready(Err(std::io::ErrorKind::BrokenPipe.into()));
+        }
+        Pin::new(&mut self.inner).poll_write(cx, buf)
+    }
+    fn poll_flush(mut self: Pin<&mut Self>, cx: &mut Context<'_>) -> Poll<std::io::Result<()>> {
+        if self.is_cut() {
+            return Poll::Ready(Err(std::io::ErrorKind::BrokenPipe.into()));
+        }
+        Pin::new(&mut self.inner).poll_flush(cx)
+    }
+    fn poll_shutdown(mut self: Pin<&mut Self>, cx: &mut Context<'_>) -> Poll<std::io::Result<()>> {
+        Pin::new(&mut self.inner).poll_shutdown(cx)
+    }
 }
 
 struct LimitedRead<R> {
@@ -116,8 +146,9 @@ impl ClusterBidiStream for PipeEnd {
         let limit = self.read_limit;
         let latency_ms = self.latency_ms;
         let trickle = self.trickle;
+        let cut = self.cut_writes.clone();
         let (r, w) = tokio::io::split(self.stream);
-        (Box::new(LimitedRead { inner: r, limit, latency_ms, trickle, idle: true, in_transit: None }), Box::new(w))
+        (Box::new(LimitedRead { inner: r, limit, latency_ms, trickle, idle: true, in_transit: None }), Box::new(CuttableWrite { inner: w, cut }))
     }
     fn peer_label(&self) -> Option<String> {
         Some(self.label.clone())
@@ -134,8 +165,8 @@ pub fn pipe(label: &str, read_limit: usize) -> (PipeEnd, PipeEnd) {
 pub fn slow_pipe(label: &str, read_limit: usize, latency_ms: u64) -> (PipeEnd, PipeEnd) {
     let (a, b) = tokio::io::duplex(1 << 16);
     (
-        PipeEnd { stream: a, label: label.to_string(), read_limit, latency_ms, trickle: false },
-        PipeEnd { stream: b, label: label.to_string(), read_limit, latency_ms, trickle: false },
+        PipeEnd { stream: a, label: label.to_string(), read_limit, latency_ms, trickle: false, cut_writes: None },
+        PipeEnd { stream: b, label: label.to_string(), read_limit, latency_ms, trickle: false, cut_writes: None },
     )
 }
 
@@ -1167,6 +1198,9 @@ pub enum Scripted {
     /// the honest peer dials, the link becomes ready, and it dials again with another connection id (lower or
     /// higher than the first); whoever loses, the losing connection must end up closed
     RedialAfterReady(u64, u64),
+    /// two dials of the honest peer with the given connection ids, both named before either finishes; the second
+    /// finishes first. The rule says which one stands: the lower non-zero id; a legacy id (0) loses to any other
+    TwoIds(u64, u64),
     /// `n` stalled connections claim the honest peer's name AND connection id; then the honest peer dials
     SameNonceSquatters(usize),
     /// an honest legacy peer (connection id 0) dials twice; the first dial finishes its handshake last
@@ -1195,6 +1229,7 @@ fn c18_scripted_body(kind: Scripted) -> vsched::Body {
         vsched::explore_schedules(true);
         let mut stalled = Vec::new();
         let honest_pipes: Vec<&str>;
+        let mut expected_winner: Option<&str> = None;
         match kind {
             Scripted::SameNonceSquatters(n) => {
                 for i in 0..n {
@@ -1277,6 +1312,23 @@ fn c18_scripted_body(kind: Scripted) -> vsched::Body {
                 stalled.extend(ps);
                 honest_pipes = vec!["pipe-first", "pipe-second", "pipe-third"];
             }
+            Scripted::TwoIds(id1, id2) => {
+                let mut first = open("pipe-first");
+                scripted_name(&mut first, "b@host", id1).await;
+                vsched::quiesce();
+                let mut second = open("pipe-second");
+                scripted_name(&mut second, "b@host", id2).await;
+                let ok2 = scripted_finish(&mut second, COOKIE).await;
+                vsched::quiesce();
+                let ok1 = scripted_finish(&mut first, COOKIE).await;
+                if !ok1 && !ok2 {
+                    bad.push("neither of the honest peer's two dials was acknowledged".to_string());
+                }
+                stalled.push(first);
+                stalled.push(second);
+                honest_pipes = vec!["pipe-first", "pipe-second"];
+                expected_winner = Some(if id1 == 0 || (id2 != 0 && id2 < id1) { "pipe-second" } else { "pipe-first" });
+            }
             Scripted::LegacyTwoDials | Scripted::RepeatedIdTwoDials => {
                 let id = if kind == Scripted::LegacyTwoDials { 0 } else { 9 };
                 let mut first = open("pipe-first");
@@ -1327,6 +1379,11 @@ fn c18_scripted_body(kind: Scripted) -> vsched::Body {
             bad.push(format!("{} authenticated sessions for the peer are left standing ({standing:?}), expected exactly one; events {ev:?}", standing.len()));
         } else if !honest_pipes.contains(&standing[0].0.as_str()) {
             bad.push(format!("the session left standing is {:?}, which never proved the cookie", standing[0]));
+        }
+        if let (Some(w), 1) = (expected_winner, standing.len()) {
+            if standing[0].0 != w {
+                bad.push(format!("the connection left standing is {} but the election rule (lowest connection id, a legacy id loses to any other) picks {w} for {kind:?}, whatever the order in which the candidates are examined", standing[0].0));
+            }
         }
         for e in &ev {
             if e.contains("authenticated pipe-stall") || e.contains("ready pipe-stall") {
@@ -1403,6 +1460,12 @@ pub fn c18_units(thorough: bool) -> Vec<Unit> {
         Scripted::RedialAfterReady(9, 5),
         Scripted::RedialAfterReady(0, 5),
         Scripted::RedialAfterReady(5, 0),
+        Scripted::TwoIds(0, u64::MAX),
+        Scripted::TwoIds(u64::MAX, 0),
+        Scripted::TwoIds(0, 1),
+        Scripted::TwoIds(1, u64::MAX),
+        Scripted::TwoIds(u64::MAX, u64::MAX - 1),
+        Scripted::TwoIds(7, 3),
     ] {
         for seed in if thorough { (1u64..=8).collect::<Vec<_>>() } else { vec![1u64, 2, 3, 4] } {
             let mut c = cfg.clone();
@@ -2367,6 +2430,72 @@ fn c20_leave_vs_rejoin_body() -> vsched::Body {
     })
 }
 
+/// The transport of the link loses ONE direction: from some moment on every write of node a fails with BrokenPipe
+/// while its reads stay open (a user-supplied transport whose two halves fail independently). The next frame a
+/// has to send (a group change here) hits the error; the session closes, and with it every remote reference on
+/// both sides stops, leaves its groups and refuses sends.
+fn c20_send_direction_lost_body(flush_only_after: bool) -> vsched::Body {
+    with_rt(move || async move {
+        let t = two_nodes().await;
+        let plog: L = Arc::new(Mutex::new(vec![]));
+        let (p, ph) = Actor::spawn(Some("P".into()), Probe { log: plog.clone(), tag: "P", reply_delay_ms: 0 }, ()).await.expect("P");
+        ractor::pg::join("pub".into(), vec![p.get_cell()]);
+        let cut = Arc::new(std::sync::atomic::AtomicBool::new(false));
+        {
+            let (mut x, y) = pipe("pipe-ab", 0);
+            x.cut_writes = Some(cut.clone());
+            let _ = t.a.server.cast(NodeServerMessage::ConnectionOpenedExternal { stream: Box::new(x), is_server: false });
+            let _ = t.b.server.cast(NodeServerMessage::ConnectionOpenedExternal { stream: Box::new(y), is_server: true });
+        }
+        vsched::quiesce_time();
+        let mut bad = Vec::new();
+        let mut proxies: Vec<ActorCell> = Vec::new();
+        for n in [&t.a, &t.b] {
+            for (_, _, sess) in sessions(n).await {
+                proxies.extend(sess.get_children().into_iter().filter(|c| !c.get_id().is_local() && c.get_id().pid() == p.get_id().pid()));
+            }
+        }
+        if proxies.is_empty() {
+            bad.push(format!("set-up: no remote reference for the advertised actor: {:?}", t.events.lock().unwrap()));
+        }
+        let before = sessions(&t.a).await.len();
+        vsched::explore_schedules(true);
+        cut.store(true, std::sync::atomic::Ordering::SeqCst);
+        // something both sessions have to tell their peer
+        if flush_only_after {
+            ractor::pg::leave("pub".into(), vec![p.get_cell()]);
+        } else {
+            ractor::pg::join("second".into(), vec![p.get_cell()]);
+        }
+        vsched::quiesce_time();
+        vsched::explore_schedules(false);
+        let after = sessions(&t.a).await;
+        if before != 1 || after.iter().any(|s| s.2.get_status() == ActorStatus::Running) {
+            bad.push(format!("node a could no longer send on the link (every write failed with BrokenPipe) but still lists a running session: {:?}", after.iter().map(|x| format!("{}->{:?}", x.0, x.1)).collect::<Vec<_>>()));
+        }
+        for px in &proxies {
+            if px.get_status() != ActorStatus::Stopped {
+                bad.push(format!("the link lost its send direction but the remote reference {} is {:?}", px.get_id(), px.get_status()));
+            }
+            let r: ActorRef<Wire> = px.clone().into();
+            if r.cast(Wire::Note(99, "late".into())).is_ok() {
+                bad.push(format!("a send to the remote reference {} was accepted after the link was lost", px.get_id()));
+            }
+        }
+        if remote_members() != 0 {
+            bad.push(format!("remote references are still group members after the link was lost: {:?}", ractor::pg::verif_snapshot().groups));
+        }
+        let key = format!("proxies={} sessions-after={}", proxies.len(), after.len());
+        for n in [t.a, t.b] {
+            n.server.stop(None);
+            let _ = n.handle.await;
+        }
+        p.stop(None);
+        let _ = ph.await;
+        Outcome { key, violations: bad }
+    })
+}
+
 pub fn c20_units(thorough: bool) -> Vec<Unit> {
     let cfg = cluster_cfg();
     let mut v = Vec::new();
@@ -2405,6 +2534,10 @@ pub fn c20_units(thorough: bool) -> Vec<Unit> {
         v.push(Unit::explore_split(Job::new(format!("remote-join-vs-exit/{}", if kill { "kill" } else { "stop" }), fine3.clone(), Some(if thorough { 2 } else { 1 }), c20_join_vs_exit_body(kill)), 8));
     }
     v.push(Unit::explore_split(Job::new("remote-leave-vs-rejoin".to_string(), fine3.clone(), Some(if thorough { 2 } else { 1 }), c20_leave_vs_rejoin_body()), 8));
+    // the link loses its send direction only
+    for leave in [false, true] {
+        v.push(Unit::explore_split(Job::new(format!("remote-send-direction-lost/{}", if leave { "next-frame-is-a-leave" } else { "next-frame-is-a-join" }), cfg.clone(), Some(if thorough { 2 } else { 1 }), c20_send_direction_lost_body(leave)), 8));
+    }
     // timed-out calls with transit time: (latency, think time of the real actor, pause before the next call)
     let mut late = vec![(30u64, 80u64, 5u64), (30, 80, 30), (20, 60, 5), (10, 120, 5)];
     if thorough {
